@@ -78,7 +78,7 @@ def run_c20(tier, args):
     cov = dict(
         evaluations=total.runs,
         distinct_nontrivial=len(total.tuples),
-        rule="plans 1..N enumerate every single fault of the fault-free call trace of each tier schema: (call kind, ordinal among calls of that kind, outcome) for mkdir/open-for-write/write+writev/close/open-for-read/read; further plans are seeded histories of 1-4 sbeppc runs on one simulated directory with 0-3 faults per run, yanked disk, disk-full-after-B-bytes, pre-populated output directories (longer/torn/stale/identical files), heap-layout perturbation. distinct = distinct (schema, call kind#ordinal, outcome) fault points that actually fired",
+        rule="plans 1..N enumerate every single fault of the fault-free call trace of each tier schema: (call kind, ordinal among calls of that kind, outcome) for mkdir/open-for-write/write+writev/close/open-for-read/read/stat (stat faults are soft); further plans are seeded histories of 1-4 sbeppc runs on one simulated directory with 0-3 faults per run, yanked disk, disk-full-after-B-bytes, persistent environment conditions on the output root (every call incl. stat fails with EACCES/ENAMETOOLONG/ELOOP/EIO), pre-populated output directories (longer/torn/stale/identical files), heap-layout perturbation. distinct = distinct (schema, call kind#ordinal, outcome) fault points that actually fired",
         exhaustive_single_fault_enumeration=True,
         enumerated_points=nenum,
         explored_histories=nexplore,
